@@ -127,7 +127,7 @@ INT_TEXTS = ["0", "-0", "+0", "007", "+5", "-5", " 1_0 ", "1_000", "1__0", "_1",
 class C10(Prop):
     pid = "C10"
     manifest = dict(
-        technique='Lean 4 theorems over all Int / all code-point lists / all octet lists / all instants: int↔string and uint↔string round trips via a decimal-digits lemma, UTF-8 decode∘encode = id and decode-success ⇒ genuine encoding, timestamp and duration text round trips, truncation and range errors; constructor ladders and __str__ formats regenerated from celtypes.py + bridge; differential correspondence and an independent round-trip / range oracle on both runners',
+        technique='Lean 4 theorems over all Int / all code-point lists / all octet lists / all instants: int↔string and uint↔string round trips via a decimal-digits lemma, UTF-8 decode∘encode = id and decode-success ⇒ genuine encoding, timestamp and duration text round trips, int↔uint↔double compositions, truncation and range errors; constructor dispatch regenerated from celtypes.py as functions of (class of the source, text) and proved equal to the pinned dispatch for ALL classes and texts (semantic bridge), __str__ formats + range decorators regenerated + bridge; differential correspondence and an independent round-trip / range oracle on both runners, on single inputs and on sequences of related inputs in one process (memo / cache / shared-state changes)',
         text='proof: int(string(i)) = i for ALL int64, uint(string(u)) = u for ALL uint64, string(bytes(s)) = s for ALL Unicode strings, bad UTF-8 is always an error, timestamp(string(t)) = t for ALL whole-second timestamps of years 1..9999 and whole-minute offsets, duration(string(d)) = d for ALL whole-second durations in range, int/uint of a double truncate toward zero or fail, never clamp. double(string(d)) = d rests on CPython repr/float (trusted, corresponded on random bit patterns): partial',
         note='Lean kernel; CPython int()/str()/float()/repr(), UTF-8 codec, pendulum.parse trusted and corresponded; string(double)/double(string) not modelled (oracle only)',
         ref='DESIGN.md §5 C10')
@@ -143,7 +143,11 @@ class C10(Prop):
             "U+D7FF/U+E000 edges, byte strings valid and invalid UTF-8 (overlong, surrogate, >10FFFF, truncated, stray), int texts incl. "
             "sign/underscore/blank/0x quirks, whole-second timestamps on year boundaries/leap days/random with whole-minute offsets, RFC 3339 "
             "texts with fractions and all zone designators plus invalid dates, durations over the full range; round trips in both directions; "
-            "through the constructor, the interpreter and the compiled runner with literals and bound variables. non-trivial = an error outcome, "
+            "through the constructor, the interpreter and the compiled runner with literals and bound variables; SEQUENCES of related conversions "
+            "evaluated in one process (serially and on 4 threads; first steps repeated at the end): both signs / several spellings of one duration, "
+            "one integer as many texts to both integer targets, equal values of different types (n, nu, n.0, true; -0.0/0.0), one instant at several "
+            "offsets, text vs. bytes of the same content with damaged relatives, every route to the edges 0, ±2^63, 2^64, 10^18, 10^19, 2^53, "
+            "identity conversions; each step judged by the single-case oracle. non-trivial = an error outcome, "
             "a value within 2^10 of a range boundary, a non-ASCII string, a timestamp before year 1000 / on a year boundary, or a non-identity composition")
 
     # ------------------------------------------------------------------------------------------
@@ -365,6 +369,7 @@ class C10(Prop):
             m = rng.choice([rng.randint(1, 120), 60 * rng.randint(1, 10**4), rng.randint(1, 10**6), rng.randint(1, MAX_DUR_S),
                             rng.choice([30, 60, 90, 3600, 86400, MAX_DUR_S])])
             steps = [rt("dur_string", m * US_S), rt("dur_string", -m * US_S), conv("string", "dur", m * US_S), conv("string", "dur", -m * US_S),
+                     conv("duration", "dur", m * US_S), conv("duration", "dur", -m * US_S),
                      conv("duration", "s", f"{m}s"), conv("duration", "s", f"-{m}s"), conv("duration", "i", m), conv("duration", "i", -m)]
             extra = [f"0{m}s", f"{m}.0s", f"-{m}.000s"]
             if m % 60 == 0:
@@ -408,7 +413,8 @@ class C10(Prop):
                      conv("int", "d", bits(-x)), conv("uint", "d", bits(-x)), conv("int", "d", bits(x + 0.5)), conv("uint", "d", bits(-x - 0.5)),
                      rt("int_string", n), rt("uint_string", n), rt("double_string", bits(x)), rt("double_string", bits(-x)),
                      rt("int_double", n), rt("uint_double", n), rt("int_uint", n), rt("uint_int", n),
-                     conv("int", "s", dec_str(n)), conv("uint", "s", dec_str(n)), conv("double", "s", dec_str(n)), conv("bool", "s", dec_str(n))]
+                     conv("int", "s", dec_str(n)), conv("uint", "s", dec_str(n)), conv("double", "s", dec_str(n)), conv("bool", "s", dec_str(n)),
+                     conv("double", "d", bits(x)), conv("double", "d", bits(-x)), conv("string", "s", dec_str(n))]
             if n in (0, 1):
                 steps += [conv("string", "b", n, rng.choice(["I", "C"])), conv("bool", "s", "true" if n else "false")]
             finish(steps, threads=(i % 4 == 3))
@@ -422,7 +428,8 @@ class C10(Prop):
                 l = utc + o
                 if not 0 <= l <= MAX_LOC:
                     continue
-                steps += [rt("ts_string", [l, o]), conv("string", "t", [l, o]), conv("timestamp", "s", ts_text(l, o)), conv("int", "t", [l, o])]
+                steps += [rt("ts_string", [l, o]), conv("string", "t", [l, o]), conv("timestamp", "s", ts_text(l, o)), conv("int", "t", [l, o]),
+                          conv("timestamp", "t", [l, o])]
                 if o == 0:
                     steps.append(conv("timestamp", "s", ts_text(l, o)[:-1] + "+00:00"))
             l2 = utc + rng.choice([US_S, -US_S, 60 * US_S, 3600 * US_S, US_DAY])          # a near neighbour, UTC
@@ -446,11 +453,10 @@ class C10(Prop):
                 steps += [conv("string", "y", bytes(d).hex(), rng.choice(["direct", "Ivar", "Cvar"])),
                           rt("bytes_string", bytes(d).hex(), rng.choice(["direct", "Ivar", "Cvar"]))]
             w2 = w + "x" if rng.random() < 0.5 else w.swapcase() + w[:1]
-            steps += [conv("bytes", "s", w2), rt("string_bytes", w2)]
+            steps += [conv("bytes", "s", w2), rt("string_bytes", w2), conv("string", "s", w), conv("bytes", "y", b.hex(), rng.choice(["direct", "Ivar", "Cvar"]))]
             finish(steps, threads=(i % 3 == 2))
         # (f) the edges of the two integer ranges, every route to them
-        for i in range(6 * reps):
-            e = rng.choice([2**63, 2**64, 0, -2**63, 10**19, 2**53, 10**18])
+        for i, e in enumerate([2**63, 2**64, 0, -2**63, 10**19, 2**53, 10**18] * reps):
             steps = []
             for n in range(e - 2, e + 3):
                 if 0 <= n <= U_MAX:
@@ -780,6 +786,22 @@ class C10(Prop):
             if not I_MIN <= v <= I_MAX:
                 return None
             return want(f"dur {v * US_S}", f"duration({v})") if abs(v) <= MAX_DUR_S else want_err(f"duration({v})")
+        # a conversion to the type the value already has is the identity
+        if (f, src) == ("string", "s"):
+            return want("string:" + json.dumps(v), f"string({v!r})") if utf8_encode(v) is not None else None
+        if (f, src) == ("bytes", "y"):
+            return want("bytes:" + v, f"bytes(b'{v}')")
+        if (f, src) == ("double", "d"):
+            return want("double:" + str(v), f"double({v})")
+        if (f, src) == ("timestamp", "t"):
+            l, o = v
+            if out.startswith("ts "):
+                gl, go = (int(x) for x in out.split()[1:])
+                if gl - go == l - o:
+                    return None
+            return f"timestamp(t) for t = {ts_text(l, o)} via {c['via']}: expected the same instant, got {out}"
+        if (f, src) == ("duration", "dur"):
+            return want(f"dur {v}", f"duration(d) for d = {v} µs")
         if f == "duration" and src == "s":
             # the text read exactly (own reader in c11_util); only exact whole-µs values are demanded here
             # (rounding of finer text is C11's business)
